@@ -1,3 +1,4 @@
+import CifModel.Model.WalkH
 import CifModel.Model.StoreRead
 import CifModel.Lemmas.StoreIterSpec
 import CifModel.Lemmas.StoreCodec
@@ -235,8 +236,7 @@ inductive InCont : WCont → WCont → Prop where
   | frame {c' : WCont} {code : Str} {frames : List WCont} {loops : List WLoop} {f : WCont} :
       f ∈ frames → InCont c' f → InCont c' (.mk code frames loops)
 
-def _root_.CifModel.Walk.WCont.loops : WCont → List WLoop
-  | .mk _ _ ls => ls
+-- (WCont.loops is defined in Model/WalkH.lean)
 
 theorem mem_flattenList (t : ETree) (e : Ev) : ∀ ts : List ETree, t ∈ ts → e ∈ flatten t → e ∈ flattenList ts
   | [], h, _ => by cases h
